@@ -60,8 +60,8 @@ theorem pass_bound_adversarial (cfg : Cfg) (s : State) (ds1 : List D1) (origins 
   apply assignAllAdv_len
   exact Nat.le_trans (cleanupAdv_len s.conns ds1 s.conns []) h
 
-theorem cleanup_len (cfg : Cfg) (snap cur : List Conn) (closing : List (Conn × Reason)) :
-    (cleanup cfg snap cur closing).1.length ≤ cur.length := by
+theorem cleanup_len (cfg : Cfg) (res : List Nat) (snap cur : List Conn) (closing : List (Conn × Reason)) :
+    (cleanup cfg res snap cur closing).1.length ≤ cur.length := by
   induction snap generalizing cur closing with
   | nil => simp [cleanup]
   | cons c rest ih =>
@@ -84,7 +84,7 @@ theorem assignOne_len (cfg : Cfg) (s : State) (r : Req) (h : s.conns.length ≤ 
     · split
       · rename_i i _ hi
         have hmem : i ∈ s.conns := by
-          have : i ∈ s.conns.filter (·.idle) := by rw [hi]; simp
+          have : i ∈ s.conns.filter (fun c => c.idle && !(isReserved s.reserved c)) := by rw [hi]; simp
           exact (List.mem_filter.mp this).1
         simp [List.length_erase_of_mem hmem]
         have : 0 < s.conns.length := List.length_pos_of_mem hmem
@@ -106,14 +106,14 @@ theorem pass_bound (cfg : Cfg) (s : State) (h : s.conns.length ≤ cfg.maxConn) 
     (pass cfg s).conns.length ≤ cfg.maxConn := by
   simp only [pass]
   apply assignAll_len
-  exact Nat.le_trans (cleanup_len cfg s.conns s.conns []) h
+  exact Nat.le_trans (cleanup_len cfg _ s.conns s.conns []) h
 
 /-- **C04.wait_not_open** — a queued request that finds the pool at its limit with no available
-connection for its origin and no idle connection stays queued, and no connection is created. -/
+connection for its origin and no idle connection that is not spoken for stays queued, and no connection is created. -/
 theorem wait_not_open (cfg : Cfg) (s : State) (r : Req)
     (hfull : ¬ s.conns.length < cfg.maxConn)
     (hav : s.conns.filter (fun c => c.origin == r.origin && c.available) = [])
-    (hidle : s.conns.filter (·.idle) = []) :
+    (hidle : s.conns.filter (fun c => c.idle && !(isReserved s.reserved c)) = []) :
     assignOne cfg s r = (s, r) := by
   simp [assignOne, hav, hidle, hfull]
 
@@ -128,7 +128,7 @@ theorem create_only_with_room (cfg : Cfg) (s : State) (r : Req)
     · split at hgrow
       · rename_i i _ hi
         have hmem : i ∈ s.conns := by
-          have : i ∈ s.conns.filter (·.idle) := by rw [hi]; simp
+          have : i ∈ s.conns.filter (fun c => c.idle && !(isReserved s.reserved c)) := by rw [hi]; simp
           exact (List.mem_filter.mp this).1
         simp [List.length_erase_of_mem hmem] at hgrow
         have : 0 < s.conns.length := List.length_pos_of_mem hmem
@@ -136,7 +136,7 @@ theorem create_only_with_room (cfg : Cfg) (s : State) (r : Req)
       · simp at hgrow
 
 /-! non-vacuity: a full pool of two with three waiters stays at two -/
-def cfg2 : Cfg := { maxConn := 2, maxKeepalive := 2, newAvail := fun _ => false, countIdleOnly := false }
+def cfg2 : Cfg := { maxConn := 2, maxKeepalive := 2, newAvail := fun _ => false, countIdleOnly := false, protectAssigned := false }
 def s2 : State :=
   { conns := [Conn.mk 0 7 false false false false],
     reqs := [Req.mk 0 1 none, Req.mk 1 2 none, Req.mk 2 3 none], closing := [], nextId := 1 }
